@@ -13,7 +13,7 @@ PID = "C04"
 RULE = ("histories of 5-60 events over shared leaves (Parameters of one Module, also held by an optimizer): build (extend a global DAG by 1-6 "
         "ops that may reuse any earlier result), backward(node, g) from any root or interior node of anything built so far, repeated backward, "
         "retain_grad() on interior nodes, enter/leave retain_grads, reset via Tensor.zero_ / Module.zero_grad / Optimizer.zero_grad, backward "
-        "directly on a leaf; plus the named scenarios (l1.backward();(l1+l2).backward(), two sweeps through a retained node, micro-batches). "
+        "directly on a leaf, optimizer steps with a zero learning rate (a step is neither a backward call nor a reset); the leaves live at several depths of a nested module tree; plus the named scenarios (l1.backward();(l1+l2).backward(), two sweeps through a retained node, micro-batches). "
         "Oracle: ledger of FD contributions; unreachable tensors byte-compared. distinct key = hash of the event-kind sequence with node roles; "
         "non-trivial = >= 2 backward events of which one starts at an interior or reused node, or a retained node is crossed twice")
 ASSUMPTIONS = ["true contribution of a backward call = FD derivative (Richardson, 1e-6 relative) of <g, node> as a function of the leaves, by fresh re-execution",
